@@ -161,7 +161,7 @@ def run(ctx):
 
     quick = ctx.tier == "quick"
     thin = 4 if quick else 1
-    nsel = 12 if quick else 60
+    nsel = 12 if quick else 100
     nev = 32
     offset = ctx.seed % 100000
     r = tlc.run("Symmetry", _cfg(ctx, thin, offset), work=ctx.work, workers=16, timeout=1500)
